@@ -1,3 +1,5 @@
+#include <limits.h>
+
 #include "VM/include/program.hpp"
 #include "VM/include/vm.hpp"
 
@@ -112,10 +114,12 @@ bool VM::executeSingle() {
       // i.parameters.add.source << " + " << i.parameters.add.constant <<
       // std::endl;
       WordIndex base = this->stack.back().data_start;
-      this->data[base + i.parameters.add.target] =
-          std::max(this->data[base + i.parameters.add.source] +
-                       i.parameters.add.constant,
-                   0);
+      // add in 64 bits and clamp to the word range [0, INT_MAX]
+      long long sum = (long long)this->data[base + i.parameters.add.source] +
+                      (long long)i.parameters.add.constant;
+      if (sum < 0) sum = 0;
+      if (sum > INT_MAX) sum = INT_MAX;
+      this->data[base + i.parameters.add.target] = (Word)sum;
       this->instruction_pointer++;
       break;
     }
